@@ -76,9 +76,9 @@ theorem drainBuf_inv (l : List Xfer) : ∀ (s : St) (w : Win), SInv s w →
   | cons x rest ih =>
     intro s w h
     unfold drainBuf
-    by_cases hc : prepare_buffered.cond_while_0 s.riw = true
+    by_cases hc : prepare_buffered.let_window_open_0 s.riw = true
     · have hopen : 0 < s.riw := by
-        simpa [prepare_buffered.cond_while_0] using hc
+        simpa [prepare_buffered.let_window_open_0] using hc
       obtain ⟨hi, hid, hw⟩ := sendInner_inv s w x h hopen
       obtain ⟨hi2, hall⟩ := ih (sendInner s x).1 w hi
       simp only [hc, if_true]
@@ -272,7 +272,7 @@ theorem drainBuf_closed (l : List Xfer) : ∀ s : St,
     · exact ih (sendInner s x).1
     · rename_i hc
       intro _
-      simp [prepare_buffered.cond_while_0] at hc
+      simp [prepare_buffered.let_window_open_0] at hc
       simpa using hc
 
 theorem step_fifo (s : St) (op : Op) :
@@ -377,7 +377,7 @@ theorem drainBuf_count (l : List Xfer) : ∀ s : St,
     unfold drainBuf
     split
     · rename_i hc
-      have hpos : 0 < s.riw := by simpa [prepare_buffered.cond_while_0] using hc
+      have hpos : 0 < s.riw := by simpa [prepare_buffered.let_window_open_0] using hc
       have ih' := ih (sendInner s x).1
       have hr : (sendInner s x).1.riw = s.riw - 1 := by
         simp [sendInner, on_outgoing_transfer_inner.assign_remote_incoming_window_0, ssub32]
@@ -390,7 +390,7 @@ theorem drainBuf_count (l : List Xfer) : ∀ s : St,
       split <;> split <;> omega
     · rename_i hc
       have hz : s.riw = 0 := by
-        simp [prepare_buffered.cond_while_0] at hc; simpa using hc
+        simp [prepare_buffered.let_window_open_0] at hc; simpa using hc
       simp [transferIds, hz]
 
 end Amqp.Session
